@@ -26,14 +26,15 @@ func init() {
 	register(&mc.Check{
 		ID:    "C13",
 		Level: "fault_enumeration",
-		Rule: "all protocol-conformant client programs of length 1..d over {Put k1 a1, Put k1 a2, Put k2 b1, Get k1, Get k2, Get missing, Start, Stop, Abort} followed by Close, run on the real Postgres backend over an in-process transactional fake of the pgx driver (fresh server + handle per run); " +
+		Rule: "all protocol-conformant client programs of length 1..d over {Put k1 a1, Put k1 a2, Put k2 b1, Get k1, Get k2, Get missing, Start, Stop, Abort, Dump k* drained, Dump k* first entry only (the two listings in the userdata variant)} followed by Close, run on the real Postgres backend over an in-process transactional fake of the pgx driver (fresh server + handle per run); " +
 			"each program is run fault-free (counting its N primitive driver calls BeginTx/Exec/Query/Rows.Next/Rows.Scan/Commit/Rollback), then once per single failing call i in 1..N, then for every i once per second failing call j in i+1..N_i (N_i = calls made by the run with fault i); " +
 			"the client is adaptive: after an error inside an explicit transaction its next step is Abort, program steps that are no longer applicable are skipped; oracle = transactional reference map + the fake's per-transaction begin/end log + reads through a second, fault-free handle on a fresh connection; " +
 			"one evaluation = one (program, fault set) run; non-trivial = a run in which an injected fault fired and at least one later operation was compared with the reference, classed by (variant, primitive kind and operation kind of each fault, inside/outside explicit transaction)",
 		Assumptions: []string{
 			"the fake's failure semantics: a failed Exec/Query/Rows.Next aborts the transaction (later statements fail, Commit rolls back with ErrTxCommitRollback); a failed Commit or Rollback ends the transaction without applying its writes; a failed Scan closes the rows only; a failed BeginTx starts nothing",
 			"client protocol: Start only without an open explicit transaction, Stop/Abort only with one, after any error (including not-found) inside an explicit transaction the next client step is Abort - or Stop, which may then fail but, if it reports success, makes the transaction's acknowledged writes visible; after Stop (failed or not) the explicit transaction is over",
-			"a failed Rollback is not required to be reported (the statement lists begin, statement, row fetch, commit); Abort (no return value), Close's return value and Dump are not constrained",
+			"a failed Rollback is not required to be reported (the statement lists begin, statement, row fetch, commit); Abort (no return value) and Close's return value are not constrained",
+			"Dump (listing of the prefix both keys share; drained or left after the first entry, dumper closed): outside an explicit transaction it must list exactly the acknowledged writes in key order, report a failed begin or statement, end the transaction it began exactly once and leave later operations working; faults in fetches behind the first entry have no error channel and the commit of its read-only transaction need not be reported; inside an explicit transaction its result is not constrained (own snapshot or the caller's), but it must not end, commit or abort the caller's transaction (visibility through the second connection is checked after it, and after the Stop/Abort that follows)",
 			"inside an explicit transaction reads see the transaction's own writes (Postgres semantics); writes of an explicit transaction still open at Close may or may not become visible (per key)",
 			"redundant Commit/Rollback on an already ended transaction are not counted as a second end (pgx documents them as safe); statements on an ended transaction are",
 			"strict connection model on: a statement/Commit/Rollback while a Rows of the same transaction is still open fails (pgx conn busy)",
@@ -55,12 +56,20 @@ const (
 	c13Start
 	c13Stop
 	c13Abort
+	c13Dump  // Dump "k", drained to the end, dumper closed (userdata variant only)
+	c13Dump1 // Dump "k", first entry only, dumper closed
 	c13NOps
 	c13Close = c13NOps // not part of the alphabet: always last
 )
 
-var c13OpNames = []string{"Put k1 a1", "Put k1 a2", "Put k2 b1", "Get k1", "Get k2", "Get missing", "Start", "Stop", "Abort", "Close"}
-var c13OpKind = []string{"put", "put", "put", "get", "get", "get", "start", "stop", "abort", "close"}
+var c13OpNames = []string{"Put k1 a1", "Put k1 a2", "Put k2 b1", "Get k1", "Get k2", "Get missing", "Start", "Stop", "Abort", "Dump k*", "Dump k* (first entry only)", "Close"}
+var c13OpKind = []string{"put", "put", "put", "get", "get", "get", "start", "stop", "abort", "dump", "dump", "close"}
+
+// c13HasOp: the listing is part of the alphabet of the userdata variant only (Dump drops the handle's language,
+// which the language variant's reference does not model).
+func c13HasOp(variant string, op int) bool {
+	return variant == "userdata" || (op != c13Dump && op != c13Dump1)
+}
 var c13Keys = []string{"k1", "k2"}
 
 func c13OpByName(n string) (int, bool) {
@@ -155,7 +164,7 @@ func (m *c13Model) apply(op int, ok bool) {
 		} else {
 			m.C[k] = v
 		}
-	case c13Get1, c13Get2, c13GetM:
+	case c13Get1, c13Get2, c13GetM, c13Dump, c13Dump1:
 		if !ok && m.inTx {
 			m.txErr = true
 		}
@@ -184,8 +193,22 @@ func (m *c13Model) faultFreeOK(op int) bool {
 	case c13Get1, c13Get2, c13GetM:
 		_, ok := m.lookup(c13GetKey(op))
 		return ok
+	case c13Dump, c13Dump1:
+		// the listing runs in a transaction of its own: it sees what is committed
+		return len(m.listing()) > 0
 	}
 	return true
+}
+
+// listing is what a Dump of the prefix "k" issued outside an explicit transaction must yield ("k1=a1,k2=b1").
+func (m *c13Model) listing() string {
+	var parts []string
+	for _, k := range c13Keys {
+		if v, ok := m.committed(k); ok {
+			parts = append(parts, k+"="+v)
+		}
+	}
+	return strings.Join(parts, ",")
 }
 
 type c13Witness struct {
@@ -397,6 +420,17 @@ func c13Exec(variant string, prog []int, faults []int, wantTrace bool) *c13Out {
 		if op == c13Get1 || op == c13Get2 || op == c13GetM {
 			st.expVal, st.hasVal = m.lookup(c13GetKey(op))
 		}
+		if op == c13Dump || op == c13Dump1 {
+			// inside an explicit transaction the result of a listing is not constrained (own transaction or the
+			// caller's: both are defensible); what it does to the caller's transaction is (hygiene and visibility below)
+			st.anyOutcome = m.inTx
+			if l := m.listing(); !m.inTx && l != "" {
+				if op == c13Dump1 {
+					l = strings.SplitN(l, ",", 2)[0]
+				}
+				st.expVal, st.hasVal = l, true
+			}
+		}
 		if pendingStopOK {
 			out.stoppedOK, pendingStopOK = true, false
 		}
@@ -417,6 +451,28 @@ func c13Exec(variant string, prog []int, faults []int, wantTrace bool) *c13Out {
 			pendingStopOK = wasInTx && st.res.pan == "" // a Stop that reached the commit of an explicit transaction (whatever the commit returned)
 		case c13Abort:
 			st.res = c13Guard(func() ([]byte, error) { store.Abort(ctx); return nil, nil })
+		case c13Dump, c13Dump1:
+			st.res = c13Guard(func() ([]byte, error) {
+				d, err := store.Dump(ctx, []byte("k"))
+				if err != nil {
+					return nil, err
+				}
+				var parts []string
+				for n := 0; n < 8; n++ {
+					k, v := d.Next(ctx)
+					if k == nil {
+						break
+					}
+					parts = append(parts, string(k)+"="+string(v))
+					if op == c13Dump1 {
+						break
+					}
+				}
+				if err := d.Close(); err != nil {
+					return nil, err
+				}
+				return []byte(strings.Join(parts, ",")), nil
+			})
 		case c13Close:
 			st.res = c13Guard(func() ([]byte, error) { return nil, store.Close(ctx) })
 		}
@@ -518,6 +574,19 @@ func c13Exec(variant string, prog []int, faults []int, wantTrace bool) *c13Out {
 		// (a) a failed begin / statement / row fetch / commit is reported by the operation
 		// Close commits an explicit transaction that is still open: a failed commit there loses acknowledged
 		// writes and must be reported like any other (what Close returns WITHOUT a fault is not constrained)
+		if s.res.err == nil && kind == "dump" {
+			// the listing can report what fails before it hands out the first entry; fetches behind the first entry
+			// have no error channel and the commit of its read-only transaction loses nothing: only begin and the
+			// statement are required to be reported
+			for _, fk := range s.fired {
+				if fk == pgfake.KBegin || fk == pgfake.KQuery {
+					out.add("err", fmt.Sprintf("fault-not-reported-%s-%s", kind, fk), func() string {
+						return fmt.Sprintf("step %d (%s): driver call %s failed during the operation but it returned no error. Run: %s", i, c13OpNames[s.op], fk, describe())
+					})
+					break
+				}
+			}
+		}
 		if s.res.err == nil && (kind == "put" || kind == "get" || kind == "start" || kind == "stop" || s.op == c13Close) {
 			for _, fk := range s.fired {
 				if fk != pgfake.KRollback {
@@ -555,6 +624,16 @@ func c13Exec(variant string, prog []int, faults []int, wantTrace bool) *c13Out {
 			case s.expOK && s.res.err != nil:
 				out.add("res", "spurious-error-"+kind, func() string {
 					return fmt.Sprintf("step %d (%s) failed with %q although no driver call failed during or after it and the reference succeeds. Run: %s", i, c13OpNames[s.op], s.res.err.Error(), describe())
+				})
+			case kind == "dump" && !s.expOK && s.res.err == nil && len(s.res.val) > 0:
+				out.add("res", "dump-lists-unacknowledged-entries", func() string {
+					return fmt.Sprintf("step %d (%s) listed %q although no acknowledged write exists. Run: %s", i, c13OpNames[s.op], s.res.val, describe())
+				})
+			case kind == "dump" && !s.expOK:
+				// an empty listing may be reported as not-found, as another error or as an empty dumper
+			case kind == "dump" && s.hasVal && !bytes.Equal(s.res.val, []byte(s.expVal)):
+				out.add("res", "dump-wrong-listing", func() string {
+					return fmt.Sprintf("step %d (%s) listed %q, acknowledged writes say %q. Run: %s", i, c13OpNames[s.op], s.res.val, s.expVal, describe())
 				})
 			case !s.expOK && s.res.err == nil:
 				out.add("res", "get-missing-key-succeeds", func() string {
@@ -735,6 +814,9 @@ func c13Run(c *mc.Ctx) {
 				return
 			}
 			for op := 0; op < c13NOps; op++ {
+				if !c13HasOp(variant, op) {
+					continue
+				}
 				// the reference decides conformance of the fault-free client: a pending error in the
 				// explicit transaction is followed by the client's Abort before the next step
 				mm := c13CloneModel(m)
